@@ -160,7 +160,8 @@ class PopOnDecoder:
             return
         if b1 in (0x12, 0x13) and 0x20 <= b2 <= 0x3F:
             self.col = max(self.col - 1, 0)           # extended characters replace the previous cell
-            self._put((EXT_12 if b1 == 0x12 else EXT_13)[b2])
+            ch = (EXT_12 if b1 == 0x12 else EXT_13)[b2]
+            self._put({"│": "|"}.get(ch, ch))
             return
         if w == CTRL["BS"]:
             if self.col > 0:
